@@ -247,6 +247,27 @@ DIRECTED = [
     "from t | select `a.b`.`c`", "from `` | select ``", "from t | select `*`", "from t | select this", "from t | select that", "from t | select {this.*, that.*}", "from t | select !{}",
 ]
 
+# embedded data formats (from_text / read_*): numeric and structural boundary values of the JSON and CSV readers
+def _data_programs():
+    nums = ["0", "-0", "1", "-1", "9223372036854775807", "9223372036854775808", "-9223372036854775808", "-9223372036854775809",
+            "18446744073709551615", "18446744073709551616", "1e400", "-1e400", "1.5", "1e-400", "0.1e1", "123456789012345678901234567890"]
+    out = []
+    for n in nums:
+        out.append("from_text format:json '[{\"a\": 1, \"b\": %s}, {\"a\": 2, \"b\": 7}]' | select {a, b}" % n)
+        out.append("from_text format:json '{\"columns\": [\"a\", \"b\"], \"data\": [[1, %s], [2, 7]]}' | select {a, b}" % n)
+        out.append("from_text format:csv \"a,b\\n1,%s\" | select {a, b}" % n)
+    vals = ["null", "true", "[1]", "{\"x\": 1}", "\"s\"", "\"\\u0000\"", "\"\\ud800\""]
+    for v in vals:
+        out.append("from_text format:json '[{\"a\": %s}]'" % v)
+    out += ["from_text format:json '[]'", "from_text format:json '{}'", "from_text format:json '[1, 2]'", "from_text format:json '[{}]'",
+            "from_text format:json '[{\"a\": 1}, {\"b\": 2}]'", "from_text format:json '{\"columns\": [\"a\"], \"data\": [[1, 2]]}'",
+            "from_text format:json '{\"columns\": [1], \"data\": [[1]]}'", "from_text format:json ''", "from_text format:csv ''",
+            "from_text format:csv \"a,a\\n1,2\"", "from_text format:csv \"a\\n1,2,3\"", "from_text format:xml '<a/>'", "from_text '1'"]
+    return out
+
+
+DIRECTED += _data_programs()
+
 PUNCT = ["(", ")", "{", "}", "[", "]", "|", ",", "=", "==", "->", "=>", "..", "-", "+", "*", "!", "??", ".", ":", "@", "\"", "'", "`", "\\", "\n", "s\"", "f\"", "$1", "#", "0x", "1e", "_"]
 MULTI = ["é", "€", "😀", "\u2028", "ß", "中", "\u0301", "\ufeff", "\x00", "\x7f", "\u200b"]
 
